@@ -1,5 +1,5 @@
 ENTRY = dict(
-    runner="C09", pkg="./cmd/c09", corr=["Corr.C09Corr"], n=dict(quick=80, thorough=20000), runner_timeout=3000,
+    runner="C09", pkg="./cmd/c09", corr=["Corr.C09Corr"], n=dict(quick=80, thorough=2500), runner_timeout=3000,
     rule="n random 32-byte seeds (plus a fixed 2-seed corpus holding the two F-09 witnesses) x {DefaultWeights (id.Weights nil, "
          "every 7th an explicit copy), all-0, all-1, random weights (uniform in [-0.2,1.2], {0,1}, and float64 boundary values "
          "incl. NaN/+-Inf/1e308)} with the variant rotating over Randomized/-ALPN/-NoALPN, 4 server names, 6 NextProtos settings; "
